@@ -804,6 +804,49 @@ func (u *Unit) specCall(x *ast.CallExpr, env *Env, sc *specCtx) Value {
 		}
 		_, un := u.boxFn(SSlice)
 		return Value{App(un, SSlice, v.Term), types.NewSlice(types.NewInterfaceType(nil, nil))}
+	case "dyn":
+		// dyn("Iface.Method", recv, args...): the result of an interface method of a type without contract, as the deterministic
+		// uninterpreted function the engine uses for such calls
+		lit, ok := x.Args[0].(*ast.BasicLit)
+		if !ok {
+			unsup("dyn() needs a string")
+		}
+		name, _ := strconv.Unquote(lit.Value)
+		parts := strings.SplitN(name, ".", 2)
+		if len(parts) != 2 {
+			unsup("dyn(): want Iface.Method")
+		}
+		var m *types.Func
+		for _, p := range u.Prog.Pkgs {
+			if o := p.Types.Scope().Lookup(parts[0]); o != nil {
+				if it, ok := o.Type().Underlying().(*types.Interface); ok {
+					for i := 0; i < it.NumMethods(); i++ {
+						if it.Method(i).Name() == parts[1] {
+							m = it.Method(i)
+						}
+					}
+				}
+			}
+		}
+		if m == nil {
+			unsup("dyn(): unknown interface method %s", name)
+		}
+		sig := m.Type().(*types.Signature)
+		var ts []Term
+		var ss []Sort
+		for i, a := range x.Args[1:] {
+			v := u.sv(a, env, sc)
+			if i > 0 && i-1 < sig.Params().Len() {
+				v = u.convert(v, sig.Params().At(i-1).Type(), env)
+			}
+			ts = append(ts, v.Term)
+			ss = append(ss, v.Sort)
+		}
+		rt := sig.Results().At(0).Type()
+		rs := u.sortOf(rt)
+		fn := fmt.Sprintf("dyn_%s_%s_0", parts[0], parts[1])
+		u.D.Fun(fn, rs, ss...)
+		return Value{App(fn, rs, ts...), rt}
 	case "regexMatch":
 		// the library's regexp.MatchString as an uninterpreted pair (matches, error)
 		u.D.Fun("regex_match", SBool, SStr, SStr)
